@@ -1051,6 +1051,13 @@ func (c *Ctx) elemAttribute(v ssa.Value, l *randLoop, depth int) string {
 				return a
 			}
 		}
+	case *ssa.Call:
+		// a rendering of an attribute (i.uri.String()) is shared by the elements that share the attribute
+		for _, a := range x.Call.Args {
+			if at := c.elemAttribute(a, l, depth-1); at != "" {
+				return at + " (through " + core.CalleeKey(&x.Call) + ")"
+			}
+		}
 	}
 	return ""
 }
